@@ -600,4 +600,48 @@ theorem bytesOk_meaning (tr : List (Ev × List Ob)) (h : bytesOk tr = true) :
       exact hg
     exact (logOk_iff g).mp (k1.ok g this)
 
+theorem lrun_append (a : List (Ev × List Ob)) : ∀ (l : LSt) (b : List (Ev × List Ob)), lrun l (a ++ b) = lrun (lrun l a) b := by
+  induction a with
+  | nil => intro l b; rfl
+  | cons t ts ih => intro l b; simp only [List.cons_append, lrun]; exact ih _ b
+
+/-- `bytesOk`, step by step, for any trace: an `ok` firing happens only in a `dataReceived` step of a live connection,
+    with a packet THIS call completed (`newFrames` of the connection's bytes before the call and the chunk) -/
+theorem bytesOk_at (pre post : List (Ev × List Ob)) (e : Ev) (os : List Ob)
+    (h : bytesOk (pre ++ (e, os) :: post) = true) (x : Nat × Int × Bytes) (hx : x ∈ okFires os) :
+    ∃ chunk g, e = .bytesIn chunk ∧ (lrun LSt.init pre).cur = some g ∧ g.dropped = false ∧
+      x.2.2 ∈ newFrames g.bytes chunk ∧ corrId x.2.2 = some x.2.1 := by
+  have hb : (lrun LSt.init (pre ++ (e, os) :: post)).bad = false := by simpa [bytesOk] using h
+  rw [lrun_append] at hb
+  have hs := good_step_of_run post (lrun LSt.init pre) (e, os) hb
+  generalize lrun LSt.init pre = l at hs
+  have hne : okFires os ≠ [] := by intro h0; rw [h0] at hx; cases hx
+  have hcontra : ∀ {b : Bool}, (b || !(okFires os).isEmpty) = false → False := by
+    intro b hb'
+    simp only [Bool.or_eq_false_iff, Bool.not_eq_eq_eq_not, Bool.not_false, List.isEmpty_iff] at hb'
+    exact hne hb'.2
+  cases e with
+  | bytesIn chunk =>
+    simp only [lstep] at hs
+    split at hs
+    · exact (hcontra hs).elim
+    · cases hc : l.cur with
+      | none => simp [hc] at hs
+      | some g =>
+        simp only [hc, Bool.or_eq_false_iff, Bool.not_eq_eq_eq_not, Bool.not_false] at hs
+        have hck := hs.2
+        simp only [chunkOk, Bool.and_eq_true, Bool.or_eq_true, List.all_eq_true, List.contains_iff_mem, beq_iff_eq,
+          Bool.not_eq_eq_eq_not, Bool.not_true] at hck
+        exact ⟨chunk, g, rfl, rfl, hck.1.1, (hck.1.2 x hx).1, (hck.1.2 x hx).2⟩
+  | connOk => simp only [lstep] at hs; split at hs <;> exact (hcontra hs).elim
+  | lost => simp only [lstep] at hs; split at hs <;> exact (hcontra hs).elim
+  | close => simp only [lstep] at hs; split at hs <;> exact (hcontra hs).elim
+  | make id ex => exact (hcontra hs).elim
+  | cancel id => exact (hcontra hs).elim
+  | connFail => exact (hcontra hs).elim
+  | advance dt => exact (hcontra hs).elim
+  | disconnect => exact (hcontra hs).elim
+  | updateMetadata a b => exact (hcontra hs).elim
+  | writeFail b => exact (hcontra hs).elim
+
 end Afkak.BrokerClientBytes
